@@ -98,6 +98,43 @@ func genC15(seed uint64, run int, tier string) *RunSpec {
 	spec.Kernel = randomKernelSeq(r)
 	spec.Kernel.Map.Order = "asc"
 	n := 4 + r.Intn(9)
+	// Scenario bias (a fifth of the histories start with it): render, make the file unusable under a NEW
+	// modification time (invalid content or deleted), render (fails), put back other content under the FIRST
+	// modification time, render. Each step changes the mtime, so nothing here is an equal-mtime edit; what is
+	// at stake is whether the failed load left the first entry behind.
+	if r.Chance(20) {
+		var cands []int
+		for i, f := range files {
+			if strings.HasPrefix(f.Name, "pages/") || strings.HasPrefix(f.Name, "layouts/") {
+				cands = append(cands, i)
+			}
+		}
+		if len(cands) > 0 {
+			fi := cands[r.Intn(len(cands))]
+			f := &files[fi]
+			first := f.Versions[f.Initial]
+			bad := FileVersion{Content: Pick(r, []string{"---\n: : : [\n---\n<p>broken front-matter</p>", "<p>{{ name | nosuchfilter }}</p>"}), MtimeNs: first.MtimeNs + 7*gran}
+			if r.Chance(30) {
+				bad = FileVersion{Deleted: true, MtimeNs: first.MtimeNs + 7*gran}
+			}
+			back := FileVersion{Content: editContent(first.Content, "restored"), MtimeNs: first.MtimeNs}
+			f.Versions = append(f.Versions, bad, back)
+			ib, ik := len(f.Versions)-2, len(f.Versions)-1
+			spec.Files = files
+			rnd := func(i int) OpSpec {
+				op := Pick(r, cat)
+				for tries := 0; tries < 20 && (op.Entry == "Vue.RenderFragment" || op.Entry == "RenderString"); tries++ {
+					op = Pick(r, cat)
+				}
+				op.Data = randomData(r, fmt.Sprintf("zz%dzz", i%3))
+				return op
+			}
+			ed := func(to int) OpSpec {
+				return OpSpec{Kind: "edit", File: f.Name, To: to, Writer: WriterSpec{FailAt: -1}, Reader: ReaderSpec{FailAfter: -1}}
+			}
+			spec.Ops = append(spec.Ops, rnd(0), ed(ib), rnd(1), ed(ik), rnd(2))
+		}
+	}
 	for i := 0; i < n; i++ {
 		switch k := r.Intn(10); {
 		case k < 4:
